@@ -332,6 +332,8 @@ func reportTerm(r *Run, where, text string, at int, what string) {
 	w := "item-text"
 	if strings.HasPrefix(where, "frame") {
 		w = "frame"
+	} else if strings.HasPrefix(where, "bytes written directly") {
+		w = "raw-terminal-output"
 	}
 	kind := "control-character"
 	r.Violate("C01", "M-term", kind+"-in-"+w, fmt.Sprintf("%s contains %s at byte %d: %q", where, what, at, text[lo:hi]))
